@@ -36,7 +36,7 @@ ASSUMPTIONS = ["process crash, operating system stays up (no loss of un-fsynced 
                "crash points are system-call boundaries as seen by strace; inside one write() the torn prefixes are "
                "emulated by truncation"]
 
-SHAPES = ("create", "continue-root", "fresh-subdir", "reused-subdir", "multi-single")
+SHAPES = ("create", "continue-root", "fresh-subdir", "reused-subdir", "multi-single", "continue-after-multi")
 _SERVER: dict = {}
 
 
@@ -93,8 +93,9 @@ def crash_points(log: Path, root: str) -> tuple[list[dict], dict]:
         if root in rest:
             target = re.search(re.escape(root) + r"[^\">\s,)]*", rest)
             ret = rest.rsplit(" = ", 1)[1].strip() if " = " in rest else ""
+            mutating = name not in ("close", "open", "openat") or any(flag in rest for flag in ("O_CREAT", "O_TRUNC"))
             points.append({"syscall": name, "when": counters[name], "target": target.group(0)[len(root):] if target else "",
-                           "ret": ret.split()[0] if ret else ""})
+                           "ret": ret.split()[0] if ret else "", "mutating": mutating})
     return points, dict(counters)
 
 
@@ -118,6 +119,12 @@ def run_case(case: dict) -> dict:
                      "writes": [[s, dsmod.make_id(s, 0, 0, k)] for k, s in enumerate(["train"] * 5 + ["test"] * 2)]}
             plain(base, first)
             committed += [tuple(w) for w in first["writes"]]
+            if shape == "continue-after-multi":
+                # an earlier multi-writer call left several child lists; the crashing session then re-merges them
+                second = {"kind": "multi", "session": 1, "single_process": True,
+                          "writers": [[["train", 0], ["train", 0], ["test", 0]], [["train", 0]], [["train", 0], ["holdout", 0]]]}
+                plain(base, second)
+                committed += [(s, dsmod.make_id(s, 1, w, k)) for w, ws in enumerate(second["writers"]) for k, (s, _) in enumerate(ws)]
             if shape == "reused-subdir":
                 second = {"kind": "subdir", "subdir": "a/b", "session": 1,
                           "writes": [[s, dsmod.make_id(s, 1, 0, k)] for k, s in enumerate(["train"] * 3 + ["holdout"] * 2)]}
@@ -132,7 +139,7 @@ def run_case(case: dict) -> dict:
         writes = [[s, dsmod.make_id(s, k_session, 0, k)] for k, (s, _) in enumerate(writes)]
         if shape == "create":
             crash = {"create": create, "kind": "root", "session": k_session, "writes": writes}
-        elif shape == "continue-root":
+        elif shape in ("continue-root", "continue-after-multi"):
             crash = {"kind": "root", "session": k_session, "writes": writes}
         elif shape in ("fresh-subdir", "reused-subdir"):
             crash = {"kind": "subdir", "subdir": "a/b" if shape == "reused-subdir" else "c/d", "session": k_session, "writes": writes}
@@ -157,8 +164,13 @@ def run_case(case: dict) -> dict:
             violations.append({"key": f"uncrashed-session/{key}", "msg": f"{fmt} {shape}: {msg}"})
         points, _ = crash_points(ref_log, str(ref_root))
         # the multi-process case: counters are per process, keep it to the parent's calls
-        sizes_before: dict = {}
         for index, point in enumerate(points):
+            # Killing on entry to a call yields the state after all *earlier* effects.  If the previous traced
+            # call changed nothing on disk (read-only open, close) this state was already audited: the quick
+            # tier skips such duplicates, the thorough tier visits every point.
+            if not case["all_torn"] and index > 0 and not points[index - 1]["mutating"]:
+                obs["duplicate_states_skipped"] += 1
+                continue
             state = work / "state"
             common.rm(state)
             shutil.copytree(base, state)
